@@ -31,7 +31,9 @@ SPECIAL_PATTERNS = ["v[[MAJOR.]MINOR.]PATCH", "MAJOR.MINOR[[.PATCH]-TAG]", "vYYY
                     # the same part twice (the second occurrence gets a suffixed group name)
                     "vYYYY0M.BUILD[-TAG] (c) YYYY", "YYYY.BUILD[-TAG][+bBUILD]", "apiMAJOR/vMAJOR.MINOR.PATCH",
                     # a week part alone in an optional group (week 0 is a value, not a zero to be omitted); literal text closing an optional group
-                    "vYYYY[.WW]", "YYYY[.UU[.INC0]]", "YYYY[wWW][-TAG]", "MAJOR.MINOR.PATCH[-TAG[.NUM]-x]", "vMAJOR.MINOR[.PATCH[-TAG]+local]"]
+                    "vYYYY[.WW]", "YYYY[.UU[.INC0]]", "YYYY[wWW][-TAG]", "MAJOR.MINOR.PATCH[-TAG[.NUM]-x]", "vMAJOR.MINOR[.PATCH[-TAG]+local]",
+                    # INC1 restarts at 1, which is not a zero: an optional group holding it is always written
+                    "YYYY.MM[.INC1]", "MAJOR.MINOR[.INC1]", "vMAJOR[.MINOR[.INC1]]"]
 
 
 def gen_pattern(r, allow_bad_week=False):
